@@ -209,7 +209,9 @@ class Check:
                                'for all inputs satisfying its path condition); transitions = SMT queries discharged (branch '
                                'feasibility + property obligations).',
                 'technique': self.technique,
-                'obligations': {k: {'paths': v['paths'], 'queries': v['queries'], 'mir_steps': v['steps'], 'failed': v['failed'],
+                'obligations': len(self.obl),
+                'discharged': sum(1 for v in self.obl.values() if v['failed'] == 0 and not v['outcomes'].get('unsupported') and not v['outcomes'].get('bound')),
+                'obligation_details': {k: {'paths': v['paths'], 'queries': v['queries'], 'mir_steps': v['steps'], 'failed': v['failed'],
                                     'wall_s': round(v['wall_s'], 2), 'outcomes': dict(v['outcomes'])} for k, v in self.obl.items()},
                 'bounds': self.bounds,
                 'bound_exceeded': eng.stats['bound_exceeded'],
@@ -229,6 +231,14 @@ class Check:
             'assumptions': self.assumptions,
         }
         os.makedirs(os.path.join(VERIF, 'evidence'), exist_ok=True)
+        ev = jsonable(ev)
+        try:
+            import jsonschema
+            sch = '/root/.vp/EVIDENCE.schema.json'
+            if os.path.exists(sch):
+                jsonschema.validate(ev, json.load(open(sch)))
+        except ImportError:
+            pass
         with open(os.path.join(VERIF, 'evidence', self.pid + '.json'), 'w') as fh:
             json.dump(ev, fh, indent=1, sort_keys=False)
 
